@@ -488,4 +488,171 @@ theorem usageAt_toRng (lrs : List TLR) (t : Nat) : usageAt (lrs.filterMap TLR.to
       have : ¬ (lr.inArea = true ∧ lr.start ≤ t ∧ t < lr.stop) := by
         intro hh; exact h ⟨hh.1, by omega⟩
       simp [this]
+theorem filter_length_lt {α : Type} (p q : α → Bool) (l : List α) (himp : ∀ x, p x = true → q x = true)
+    (a : α) (ha : a ∈ l) (hq : q a = true) (hp : p a = false) : (l.filter p).length < (l.filter q).length := by
+  induction l with
+  | nil => simp at ha
+  | cons x r ih =>
+    have hle : ∀ (l : List α), (l.filter p).length ≤ (l.filter q).length := by
+      intro l; induction l with
+      | nil => simp
+      | cons y s ih2 =>
+        simp only [List.filter_cons]
+        by_cases hpy : p y = true
+        · simp [hpy, himp y hpy]; exact ih2
+        · by_cases hqy : q y = true
+          · simp [hpy, hqy]; omega
+          · simp [hpy, hqy]; exact ih2
+    simp only [List.mem_cons] at ha
+    simp only [List.filter_cons]
+    rcases ha with rfl | ha
+    · simp [hq, hp]; have := hle r; omega
+    · have := ih ha
+      by_cases hpx : p x = true
+      · simp [hpx, himp x hpx]; exact this
+      · by_cases hqx : q x = true
+        · simp [hpx, hqx]; omega
+        · simp [hpx, hqx]; exact this
+
+/-- operations of the builder after `p` -/
+def later (b : Builder) (p : SOp) : Nat := (b.ops.filter (fun o => decide (o.index > p.index))).length
+
+theorem lookupCost_err {m : CostMap} {i : Nat} {e : Err} (h : lookupCost m i = .error e) : e = .key := by
+  unfold lookupCost at h; split at h <;> simp at h; exact h.symm
+
+theorem computeBuffer_err {p c : Option SOp} {cost : CostMap} {e : Err} (h : computeBuffer p c cost = .error e) : e ≠ .fuel := by
+  unfold computeBuffer at h
+  split at h
+  · simp at h; subst h; decide
+  · simp at h
+  · simp at h
+  · split at h
+    · simp at h
+    · simp only [bind, Except.bind] at h
+      split at h
+      · next e1 h1 => simp at h; subst h; rw [lookupCost_err h1]; decide
+      · split at h
+        · next e1 h1 => simp at h; subst h; rw [lookupCost_err h1]; decide
+        · split at h
+          · simp at h; subst h; decide
+          · simp at h
+
+theorem getBuffer_err {bm : BufferMap} {p c : Option SOp} {cost : CostMap} {e : Err} (h : getBuffer bm p c cost = .error e) : e ≠ .fuel := by
+  unfold getBuffer at h
+  split at h
+  · simp at h; subst h; decide
+  · split at h
+    · simp at h
+    · simp only [bind, Except.bind] at h
+      split at h
+      · next e1 h1 => simp at h; subst h; exact computeBuffer_err h1
+      · simp at h
+
+theorem innerLoop_fuel (b : Builder) (ref fb : CostMap) (assigned : List Nat) (first : SOp) (cascadeIfm : Nat) (peak : Int) :
+    ∀ (fuel : Nat) (s : Inner) (e : Err), later b s.producer < fuel →
+      innerLoop b ref fb assigned first cascadeIfm peak fuel s = .error e → e ≠ .fuel := by
+  intro fuel
+  induction fuel with
+  | zero => intro s e h; omega
+  | succ fuel ih =>
+    intro s e hlt h
+    unfold innerLoop at h
+    split at h
+    · next d hd =>
+      split at h
+      · simp at h
+      · next cur hcur =>
+        split at h
+        · simp at h
+        split at h
+        · simp at h
+        split at h
+        · simp at h
+        split at h
+        · simp at h
+        next hidx =>
+        have hcm : cur ∈ b.ops := by unfold Builder.findOp at hcur; exact List.mem_of_find?_eq_some hcur
+        have hidx' : s.producer.index + 1 = cur.index := by simpa using hidx
+        have hdec : later b cur < later b s.producer := by
+          unfold later
+          refine filter_length_lt _ _ b.ops ?_ cur hcm (by simp; omega) (by simp)
+          intro x hx; simp at hx ⊢; omega
+        simp only [bind, Except.bind] at h
+        split at h
+        · next e1 h1 => simp at h; subst h; exact getBuffer_err h1
+        · split at h
+          · next e1 h1 => simp at h; subst h; rw [lookupCost_err h1]; decide
+          · split at h
+            · split at h
+              · simp at h
+              · exact ih _ e (by simp only; omega) h
+            · split at h
+              · simp at h
+              · split at h
+                · exact ih _ e (by simp only; omega) h
+                · exact ih _ e (by simp only; omega) h
+    · simp at h
+
+
+theorem finishLoop_err (ref : CostMap) (cStart cEnd : Nat) :
+    ∀ (l : List SOp) (prev : Option SOp) (bm : BufferMap) (cost : CostMap) (bufs : List (Nat × Shape4)) (e : Err),
+      finishLoop ref cStart cEnd l prev bm cost bufs = .error e → e ≠ .fuel := by
+  intro l
+  induction l with
+  | nil => intro prev bm cost bufs e h; simp [finishLoop] at h
+  | cons op rest ih =>
+    intro prev bm cost bufs e h
+    unfold finishLoop at h
+    split at h
+    · simp at h; subst h; decide
+    simp only [bind, Except.bind] at h
+    split at h
+    · next e1 h1 => simp at h; subst h; rw [lookupCost_err h1]; decide
+    · split at h
+      · exact ih _ _ _ _ _ h
+      · split at h
+        · next e1 h1 => simp at h; subst h; exact getBuffer_err h1
+        · exact ih _ _ _ _ _ h
+
+theorem outerStep_err (b : Builder) (ref fb : CostMap) (st : BState) (op : SOp) (e : Err)
+    (h : outerStep b ref fb st op = .error e) : e ≠ .fuel := by
+  unfold outerStep at h
+  split at h
+  · simp at h
+  simp only [bind, Except.bind] at h
+  split at h
+  · next e1 h1 => simp at h; subst h; rw [lookupCost_err h1]; decide
+  · split at h
+    · split at h
+      · next e1 h1 => simp at h; subst h; rw [lookupCost_err h1]; decide
+      · simp at h
+    · split at h
+      · next e1 h1 => simp at h; subst h; rw [lookupCost_err h1]; decide
+      · split at h
+        · next e1 h1 =>
+          simp at h; subst h
+          refine innerLoop_fuel b ref fb _ op _ st.peak _ _ _ ?_ h1
+          unfold later
+          exact Nat.lt_succ_of_le (List.length_filter_le _ _)
+        · split at h
+          · split at h
+            · next e1 h1 => simp at h; subst h; exact finishLoop_err _ _ _ _ _ _ _ _ _ h1
+            · simp at h
+          · simp at h
+
+theorem buildCascadesFrom_fuel (bm0 : BufferMap) (b : Builder) (ref fb : CostMap) (limit : Int) (e : Err)
+    (h : buildCascadesFrom bm0 b ref fb limit = .error e) : e ≠ .fuel := by
+  unfold buildCascadesFrom at h
+  have gen : ∀ (l : List SOp) (st : BState), foldM' (outerStep b ref fb) l st = .error e → e ≠ .fuel := by
+    intro l
+    induction l with
+    | nil => intro st h; simp [foldM'] at h
+    | cons op rest ih =>
+      intro st h
+      unfold foldM' at h
+      split at h
+      · exact ih _ h
+      · next e1 h1 => simp at h; subst h; exact outerStep_err b ref fb st op _ h1
+  exact gen _ _ h
+
 end VelaVerif.SchedMem
